@@ -125,7 +125,7 @@ def playback(crate, harness):
     src = os.path.join(crate, "src", "verif_kani.rs")
     txt = open(src).read()
     open(src, "w").write(txt + "\n" + test + "\n")
-    r2 = sh(["cargo", "kani", "playback", "-Z", "concrete-playback", "--", name.group(1) if name else "kani_concrete_playback"], crate)
+    r2 = sh(["cargo", "kani", "playback", "-Z", "concrete-playback", "--lib", "--", name.group(1) if name else "kani_concrete_playback"], crate)
     reproduced = "test result: FAILED" in r2.stdout and "panicked" in r2.stdout
     open(src, "w").write(txt)
     return m.group(1), reproduced, r2.stdout[-2500:]
